@@ -231,8 +231,9 @@ example : timeOfView (viewByTimeUnit ⟨2001, 12, 31, 23⟩ .H) true = some ⟨2
 /-- `C18_query` on a concrete history (quantum MDH, range 2000-12-31T23 .. 2001-02-01T00): columns
 1 and 3 are inside (the first and the last hour of the range), 2 and 4 just outside. -/
 example :
-    let log : List Ev := [⟨1, 1, some ⟨2000, 12, 31, 23⟩⟩, ⟨1, 2, some ⟨2000, 12, 31, 22⟩⟩,
-      ⟨1, 3, some ⟨2001, 1, 31, 23⟩⟩, ⟨1, 4, some ⟨2001, 2, 1, 0⟩⟩, ⟨2, 5, some ⟨2001, 1, 15, 12⟩⟩]
+    let log : List Ev := [⟨1, 1, some ⟨2000, 12, 31, 23⟩, true⟩, ⟨1, 2, some ⟨2000, 12, 31, 22⟩, true⟩,
+      ⟨1, 3, some ⟨2001, 1, 31, 23⟩, true⟩, ⟨1, 4, some ⟨2001, 2, 1, 0⟩, true⟩,
+      ⟨2, 5, some ⟨2001, 1, 15, 12⟩, true⟩]
     (build [.M, .D, .H] false log).rowRange 1 ⟨2000, 12, 31, 23⟩ ⟨2001, 2, 1, 0⟩ = [1, 3] ∧
     Spec.rowRange log 1 ⟨2000, 12, 31, 23⟩ ⟨2001, 2, 1, 0⟩ = [1, 3] := by decide
 
